@@ -25,7 +25,8 @@ RULE = ('Generated full sessions on dense markets: start anywhere 1995-2039 with
         'scheduled instant before it and >= 1 at/after it and >= 1 fill.'
         ' Round-5 reach: a third of the sessions hold a second funded portfolio in the same account (part of the account equity the curve reports); every recorded allocation row must equal the weights the alpha model returned at that rebalance (0 for other assets).'
         " Round-10 reach: a third of the sessions hand curve and allocations to JSONStatistics (benchmark on the later half of the dates) first and the session's equity curve is read again afterwards; spare weekday keywords."
-        " Round-11 reach: session portfolio id `master`; weights with many decimals (1/3, 0.5172413); the other mode's sizing keyword passed too.")
+        " Round-11 reach: session portfolio id `master`; weights with many decimals (1/3, 0.5172413); the other mode's sizing keyword passed too."
+        " Round-12 reach: violent markets with 5-12x leveraged long/short books (equity below zero at some closes).")
 ASSUMPTIONS = [
     'scheduled instants and the business-day grid both come from the independent calendar, so a wrong schedule class '
     'is reported here as well as by C13 (deliberate: a session that derives the wrong schedule does not trade at the '
@@ -123,6 +124,8 @@ def run_case(case):
                 d, v, ' + the reserve portfolio' if reserve else '', float(e)))
     # allocation table
     cls = list(case.get('labels', []))
+    if any(v <= 0 for _, v in r.equity_curve):
+        cls.append('equity_not_positive_at_some_close')
     if case.get('analysed_first') and r.allocations and len(r.equity_curve) >= 3:
         # the session's reports are handed to the statistics first - with a benchmark curve on fewer dates, as when a
         # benchmark session starts later - and read from the session again afterwards: they are still the session's
@@ -194,9 +197,13 @@ def cases(draw):
         start = [d0.year, d0.month, d0.day] + start[3:]
         end = [d1.year, d1.month, d1.day, 23, 59, 0]
     names = draw(market.symbol_names(1, 4))
-    mk = draw(market.dense_markets(names, d0, (d1 - d0).days))
+    wild = draw(st.sampled_from([False] * 7 + [True]))      # a violent market (daily moves of up to +-25 %) ...
+    mk = draw(market.dense_markets(names, d0, (d1 - d0).days, vol=8.0 if wild else 1.0))
     cfg, lab = draw(sessgen.full_config(names, start, end, alpha_kinds=('fixed', 'single', 'single', 'cycle'), sched=sched,
                                         entry_kinds=('before', 'start', 'on', 'after1m', 'mid', 'after_end', 'none')))
+    if wild and not cfg['long_only']:
+        cfg['leverage'] = draw(st.sampled_from([5.0, 8.0, 12.0]))     # ... on a heavily leveraged book: equity can turn negative
+        lab = lab + ['violent_market_heavily_leveraged']
     if cfg['universe']['kind'] == 'dynamic' and cfg['alpha']['kind'] == 'single' and draw(st.booleans()):
         # members also leave again: a user-defined universe (an asset held when it leaves is liquidated and then
         # disappears from the weight vectors)
